@@ -261,6 +261,52 @@ fn gen_crdt_case(rng: &mut Rng, tier: Tier) -> Vec<String> {
     ops
 }
 
+/// scripted shape (seeded change C01-2): a relay holds a version with a HOLE (non-adjacent chunks) and serves a
+/// client that has never heard of the version (Full need); the client must learn exactly the ranges the relay
+/// holds and keep asking for the hole. Then random completion paths and the usual closing rounds.
+fn gen_holey_relay_case(rng: &mut Rng) -> Vec<String> {
+    let k = rng.range(3, 5);
+    let st: Vec<String> = (0..k).map(|j| format!("ins:t:i{}:a=t{:02x},b=i{}", 1 + j, rng.range(0x61, 0x79), rng.range(0, 9))).collect();
+    let mut ops = vec![format!("nw 0 {}", st.join(";"))];
+    if rng.chance(1, 2) {
+        ops.push(format!("nw 0 ins:u:i{}+t61:x=t{:02x}", rng.range(1, 4), rng.range(0x61, 0x79)));
+    }
+    let n = rng.range(3, 4);
+    let mut held: Vec<u64> = vec![0, n - 1];
+    if n == 4 && rng.chance(1, 2) {
+        held = vec![0, 2];
+    }
+    rng.shuffle(&mut held);
+    for h in &held {
+        ops.push(format!("nb 2 o:0:1:p{h}of{n}"));
+    }
+    ops.push("nstate 2".into());
+    ops.push("nsync 1 2 all".into());
+    ops.push("ndump 1".into());
+    match rng.below(4) {
+        0 => ops.push(format!("nb 1 o:0:1:p1of{n}")),
+        1 => ops.push("nsync 1 2 all".into()),
+        2 => {
+            ops.push("nkill 1".into());
+            ops.push("nrestart 1".into());
+        }
+        _ => {}
+    }
+    for _round in 0..3 {
+        for d in 0..3 {
+            for s_ in 0..3 {
+                if d != s_ {
+                    ops.push(format!("nsync {d} {s_} all"));
+                }
+            }
+        }
+    }
+    for i in 0..3 {
+        ops.push(format!("ndump {i}"));
+    }
+    ops
+}
+
 impl Prop for C01 {
     fn id(&self) -> &'static str {
         "C01"
@@ -278,6 +324,9 @@ impl Prop for C01 {
     }
     fn gen_case(&self, rng: &mut Rng, tier: Tier, index: usize) -> Vec<String> {
         // one case in five drives real agents (slower); the others plain cr-sqlite databases
+        if index % 20 == 9 {
+            return gen_holey_relay_case(rng);
+        }
         if index % 5 == 4 {
             let mix = crate::cluster::GenMix {
                 nodes: (2, 3),
